@@ -207,7 +207,9 @@ theorem lookupVT_last_ne_skip {C : Ctx} {r : Req} {e v : Str} {post : List Str}
     · split
       · simp
       · simp
-      · split <;> simp
+      · split
+        · simp
+        · split <;> simp
 
 /-- the walk never looks behind the last version-type entry when the request names a version -/
 theorem walk_cut (C : Ctx) (r : Req) (pre : List Str) (e : Str) (post : List Str)
@@ -889,6 +891,16 @@ theorem named_nonempty {r : Req} {v : Str} (h : r.named = some v) : v.isEmpty = 
       have : ¬v = [] ∧ r.ignoreVersions = false := by simpa using hc
       simpa using this.1
 
+theorem tagKey_latest (C : Ctx) : C.tagKey kLatest = some kLatest := by
+  unfold Ctx.tagKey
+  rw [if_pos (by decide)]
+  simp
+
+theorem tagKey_typeExact (C : Ctx) : C.tagKey kTypeExact = none := by
+  unfold Ctx.tagKey
+  rw [if_neg (by decide), if_neg (by decide), if_neg (by decide)]
+  rfl
+
 theorem lookupEntry_plainTag {C : Ctx} {r : Req} {e : Str} (post : List Str) (ht : isPlainTag C e = true) :
     lookupEntry C r e post =
       .ok (match lookupTag C.db e r.name r.flavor with
@@ -913,11 +925,60 @@ theorem lookupEntry_plainTag {C : Ctx} {r : Req} {e : Str} (post : List Str) (ht
     have h3' : (e = kVersion ∨ e = kVersionBang) ∨ e = kVersionExpr := by simpa [isVT] using h
     rcases h3' with (rfl | rfl) | rfl <;> revert h3 <;> decide
   have hl : (e == kLatest) = false := by simpa using h2
-  have hrec : C.recognized e = true := by
-    simp only [Ctx.recognized, h1, Bool.true_or]
-  have h6' : colon ∉ e := by simpa using h6
+  have hkey : C.tagKey e = some e := by
+    simp only [Ctx.tagKey, h6, Bool.not_false, if_true, h1, Bool.true_or]
   cases hlt : lookupTag C.db e r.name r.flavor <;>
-    simp [lookupEntry, h4, hk, hc, hvt, h5, h6', hrec, hs, lookupTagEntry, hl, hlt]
+    simp [lookupEntry, h4, hk, hc, hvt, h5, hkey, hs, lookupTagEntry, hl, hlt]
+
+/-- an entry that reaches the tag branch of the loop body with the chain-record name `key`: a recognised
+tag, spelled in any accepted way (`t`, `global:t`, `:t`, a user tag `mine` or `user:mine`), that is
+neither `latest` nor `setup` nor one of the directives tested earlier in the loop body -/
+def IsTagEntry (C : Ctx) (e key : Str) : Prop :=
+  C.tagKey e = some key ∧ key ≠ kLatest ∧ key ≠ kSetup ∧ e ≠ kPath ∧ e ≠ kKeep ∧ e ≠ kCommandLine ∧
+    isVT e = false ∧ isWarn e = false
+
+theorem lookupEntry_tagKey {C : Ctx} {r : Req} {e key : Str} (post : List Str) (h : IsTagEntry C e key) :
+    lookupEntry C r e post =
+      .ok (match lookupTag C.db key r.name r.flavor with
+           | some p => .hit p e
+           | none => .skip) := by
+  obtain ⟨hk, hl, hs, h1, h2, h3, h4, h5⟩ := h
+  have hl' : (key == kLatest) = false := by simpa using hl
+  have hs' : (key == kSetup) = false := by simpa using hs
+  have h1' : (e == kPath) = false := by simpa using h1
+  have h2' : (e == kKeep) = false := by simpa using h2
+  have h3' : (e == kCommandLine) = false := by simpa using h3
+  cases hlt : lookupTag C.db key r.name r.flavor <;>
+    simp [lookupEntry, h1', h2', h3', h4, h5, hk, lookupTagEntry, hl', hs', hlt]
+
+theorem isTagEntry_of_plain {C : Ctx} {e : Str} (ht : isPlainTag C e = true) : IsTagEntry C e e := by
+  simp only [isPlainTag, Bool.and_eq_true, Bool.not_eq_true', bne_iff_ne, ne_eq] at ht
+  obtain ⟨⟨⟨⟨h1, h2⟩, h3⟩, h5⟩, h6⟩ := ht
+  have np : ∀ k, pseudoTags.contains k = true → e ≠ k := by
+    intro k hk he; rw [he, hk] at h3; cases h3
+  refine ⟨?_, h2, np _ (by decide), np _ (by decide), np _ (by decide), np _ (by decide), ?_, h5⟩
+  · simp only [Ctx.tagKey, h6, Bool.not_false, if_true, h1, Bool.true_or]
+  · apply Bool.eq_false_iff.mpr; intro h
+    have h3' : (e = kVersion ∨ e = kVersionBang) ∨ e = kVersionExpr := by simpa [isVT] using h
+    rcases h3' with (h | h) | h
+    · exact np _ (by decide) h
+    · exact np _ (by decide) h
+    · exact np _ (by decide) h
+
+/-- the `setup` pseudo-tag -/
+theorem lookupEntry_setup (C : Ctx) (r : Req) (post : List Str) (hi : r.ignoreVersions = false) :
+    lookupEntry C r kSetup post =
+      .ok (match lookupSetup C r with
+           | some p => .hit p kSetup
+           | none => .skip) := by
+  have hk : C.tagKey kSetup = some kSetup := by
+    unfold Ctx.tagKey
+    rw [if_pos (by decide)]
+    simp [show kSetup ∈ pseudoTags by decide]
+  cases hls : lookupSetup C r <;>
+    simp [lookupEntry, show (kSetup == kPath) = false by decide, show (kSetup == kKeep) = false by decide,
+      show (kSetup == kCommandLine) = false by decide, show isVT kSetup = false by decide,
+      show isWarn kSetup = false by decide, hk, hi, lookupTagEntry, show (kSetup == kLatest) = false by decide, hls]
 
 /-- an explicit version at a version-type entry, no separate expression in force -/
 theorem lookupVT_explicit {C : Ctx} {r : Req} {e v : Str} (post : List Str)
@@ -925,10 +986,13 @@ theorem lookupVT_explicit {C : Ctx} {r : Req} {e v : Str} (post : List Str)
     lookupVT C r e post v =
       match lookupVersion C.db r.name v r.flavor with
       | some p => .ok (.hit p (if r.depth == 0 then kCommandLine else kVersion))
-      | none => if post.any isVT then .ok .skip else .ok .abort := by
+      | none =>
+        match localProd C v with
+        | some p => .ok (.hit p (if r.depth == 0 then kCommandLine else kPathFromVersion))
+        | none => if post.any isVT then .ok .skip else .ok .abort := by
   unfold lookupVT
   rw [hex]
-  cases hlv : lookupVersion C.db r.name v r.flavor <;>
+  cases hlv : lookupVersion C.db r.name v r.flavor <;> cases hlp : localProd C v <;>
   · by_cases he : e = kVersionExpr
     · simp [he, hx he, exprPart]
     · have : (e == kVersionExpr) = false := by simpa using he
@@ -943,12 +1007,16 @@ theorem lookupVT_expr {C : Ctx} {r : Req} {v : Str} (post : List Str)
       | none =>
         match lookupVersion C.db r.name v r.flavor with
         | some p => .ok (.hit p (if r.depth == 0 then kCommandLine else kVersion))
-        | none => if post.any isVT then .ok .skip else .ok .abort := by
+        | none =>
+          match localProd C v with
+          | some p => .ok (.hit p (if r.depth == 0 then kCommandLine else kPathFromVersion))
+          | none => if post.any isVT then .ok .skip else .ok .abort := by
   unfold lookupVT
   rw [hex]
   simp only [bne_self_eq_false, Bool.and_false, Bool.false_eq_true, if_false, beq_self_eq_true, if_true,
     exprPart, hne, hex]
-  cases lookupExpr C.ord C.db r.name r.flavor v <;> rfl
+  cases lookupExpr C.ord C.db r.name r.flavor v <;> cases lookupVersion C.db r.name v r.flavor <;>
+    cases localProd C v <;> rfl
 
 
 /-! ## views: lookups for a flavor depend on the stacks only through that flavor's records -/
@@ -1099,35 +1167,82 @@ theorem lookupLatest_congr {f : Str} {db db' : Db} (h : ViewsAgree f db db')
     (cmp : Str → Str → Int) (n : Str) : lookupLatest cmp db n f = lookupLatest cmp db' n f :=
   latestGo_congr h cmp n 0 none
 
+theorem viewsAgree_length {f : Str} {db db' : Db} (h : ViewsAgree f db db') : db.length = db'.length := by
+  induction h with
+  | nil => rfl
+  | cons _ _ ih => simp [ih]
+
+theorem setupAt_congr {f : Str} {db db' : Db} (h : ViewsAgree f db db') (n v : Str) (i j : Nat) :
+    (match db[i]? with
+      | some st => if declared st n v f then some (⟨v, f, j⟩ : Prod) else none
+      | none => none) =
+    (match db'[i]? with
+      | some st => if declared st n v f then some (⟨v, f, j⟩ : Prod) else none
+      | none => none) := by
+  induction h generalizing i with
+  | nil => simp
+  | cons hst _ ih =>
+    cases i with
+    | zero => simp [declared_congr hst]
+    | succ k => simpa using ih k
+
+theorem lookupSetup_congr {C C' : Ctx} {r : Req} (hlen : C.db.length = C'.db.length)
+    (hdl : ViewsAgree r.flavor C.dbLatest C'.dbLatest) : lookupSetup C r = lookupSetup C' r := by
+  unfold lookupSetup
+  cases hs : r.setupEnv with
+  | none => rfl
+  | some s =>
+    simp only [hlen]
+    by_cases hf : s.flavor = r.flavor
+    · cases hst : s.stack with
+      | none => rfl
+      | some i =>
+        have := setupAt_congr hdl r.name s.version i i
+        rw [← hf] at this
+        simp only [Option.getD_some]
+        split
+        · rfl
+        · split
+          · rfl
+          · exact this
+    · have : (s.flavor != r.flavor) = true := by simpa using hf
+      simp [this]
+
 /-- two contexts whose views agree, stack by stack, on the records of the request's flavor give the
 same answer at every entry -/
 theorem lookupEntry_view_congr {C C' : Ctx} {r : Req} (ho : C.ord = C'.ord) (hg : C.globalTags = C'.globalTags)
+    (hu : C.userTags = C'.userTags) (hd : C.dirs = C'.dirs)
     (hdb : ViewsAgree r.flavor C.db C'.db)
     (hdl : ViewsAgree r.flavor C.dbLatest C'.dbLatest) (e : Str) (post : List Str) :
     lookupEntry C r e post = lookupEntry C' r e post := by
-  have hrec : ∀ e, C.recognized e = C'.recognized e := by intro e; simp [Ctx.recognized, hg]
+  have hlen := viewsAgree_length hdb
+  have hkey : ∀ e, C.tagKey e = C'.tagKey e := by intro e; simp [Ctx.tagKey, hg, hu]
+  have hloc : ∀ v, localProd C v = localProd C' v := by intro v; simp [localProd, hd, hlen]
   have hvt : ∀ v, lookupVT C r e post v = lookupVT C' r e post v := by
     intro v
     unfold lookupVT exprPart
-    simp only [ho, lookupExpr_congr hdb, lookupVersion_congr hdb]
-  have htag : lookupTagEntry C r e = lookupTagEntry C' r e := by
+    simp only [ho, lookupExpr_congr hdb, lookupVersion_congr hdb, hloc]
+  have htag : ∀ key, lookupTagEntry C r e key = lookupTagEntry C' r e key := by
+    intro key
     unfold lookupTagEntry
-    simp only [ho, lookupLatest_congr hdl, lookupTag_congr hdb]
-  simp only [lookupEntry, hrec, hvt, htag]
+    simp only [ho, lookupLatest_congr hdl, lookupTag_congr hdb, lookupSetup_congr hlen hdl]
+  simp only [lookupEntry, hkey, hvt, htag]
 
 theorem walk_view_congr {C C' : Ctx} {r : Req} (ho : C.ord = C'.ord) (hg : C.globalTags = C'.globalTags)
+    (hu : C.userTags = C'.userTags) (hd : C.dirs = C'.dirs)
     (hdb : ViewsAgree r.flavor C.db C'.db)
     (hdl : ViewsAgree r.flavor C.dbLatest C'.dbLatest) (vro : List Str) :
     walk C r vro = walk C' r vro := by
   induction vro with
   | nil => rfl
-  | cons e post ih => simp only [walk, lookupEntry_view_congr ho hg hdb hdl, ih]
+  | cons e post ih => simp only [walk, lookupEntry_view_congr ho hg hu hd hdb hdl, ih]
 
 theorem find_view_congr {C C' : Ctx} {r : Req} (ho : C.ord = C'.ord) (hg : C.globalTags = C'.globalTags)
+    (hu : C.userTags = C'.userTags) (hd : C.dirs = C'.dirs)
     (hdb : ViewsAgree r.flavor C.db C'.db)
     (hdl : ViewsAgree r.flavor C.dbLatest C'.dbLatest) (vro : List Str) :
     find C r vro = find C' r vro := by
-  simp only [find, walk_view_congr ho hg hdb hdl]
+  simp only [find, walk_view_congr ho hg hu hd hdb hdl]
 
 /-- the cache view of a database agrees with the database on every flavor the process loads,
 whatever was accepted -/
@@ -1178,8 +1293,31 @@ theorem latestGo_flavor {cmp : Str → Str → Int} {n f : Str} {i : Nat} {out :
         · exact ih (by intro q hq; cases hq; rfl) h
         · exact ih hout h
 
+theorem lookupSetup_flavor {C : Ctx} {r : Req} {p : Prod} (h : lookupSetup C r = some p) : p.flavor = r.flavor := by
+  unfold lookupSetup at h
+  split at h
+  · cases h
+  · rename_i s _
+    split at h
+    · cases h
+    · rename_i hf
+      have hf' : s.flavor = r.flavor := by simpa using hf
+      split at h
+      · cases h; exact hf'
+      · split at h
+        · cases h
+        · split at h
+          · split at h
+            · cases h; exact hf'
+            · cases h
+          · cases h
+
+/-- the request does not name a `LOCAL:` directory that exists (such a product has no flavor) -/
+def NoLocal (C : Ctx) (r : Req) : Prop := ∀ v, r.named = some v → localProd C v = none
+
 theorem lookupEntry_flavor {C : Ctx} {r : Req} {e : Str} {post : List Str} {p : Prod} {reason : Str}
-    (hr : r.already = none) (h : lookupEntry C r e post = .ok (.hit p reason)) : p.flavor = r.flavor := by
+    (hr : r.already = none) (hloc : NoLocal C r)
+    (h : lookupEntry C r e post = .ok (.hit p reason)) : p.flavor = r.flavor := by
   unfold lookupEntry at h
   simp only [hr] at h
   split at h
@@ -1192,7 +1330,8 @@ theorem lookupEntry_flavor {C : Ctx} {r : Req} {e : Str} {post : List Str} {p : 
         · -- version-type entry
           split at h
           · cases h
-          · rename_i v _
+          · rename_i v hv
+            have hlv := hloc v hv
             unfold lookupVT at h
             split at h
             · cases h
@@ -1217,29 +1356,32 @@ theorem lookupEntry_flavor {C : Ctx} {r : Req} {e : Str} {post : List Str} {p : 
                   · rename_i q hq
                     cases h
                     exact ((lookupVersion_some_iff ..).mp hq).2.1
-                  · split at h <;> cases h
+                  · simp only [hlv] at h
+                    split at h <;> cases h
         · split at h
           · split at h <;> cases h
           · split at h
-            · split at h <;> cases h
             · split at h
-              · split at h
-                · cases h
-                · simp only [Except.ok.injEq] at h
-                  unfold lookupTagEntry at h
-                  split at h
-                  · rename_i q hq
-                    cases h
-                    split at hq
-                    · exact latestGo_flavor (by intro q hq; cases hq) hq
+              · cases h
+              · simp only [Except.ok.injEq] at h
+                unfold lookupTagEntry at h
+                split at h
+                · rename_i q hq
+                  cases h
+                  split at hq
+                  · exact latestGo_flavor (by intro q hq; cases hq) hq
+                  · split at hq
+                    · exact lookupSetup_flavor hq
                     · exact ((lookupTag_some_iff ..).mp hq).1
-                  · cases h
+                · cases h
+            · split at h
+              · split at h <;> cases h
               · cases h
 
 theorem walk_flavor {C : Ctx} {r : Req} {vro : List Str} {h : Hit}
-    (hr : r.already = none) (hw : walk C r vro = .ok (some h)) : h.prod.flavor = r.flavor := by
+    (hr : r.already = none) (hloc : NoLocal C r) (hw : walk C r vro = .ok (some h)) : h.prod.flavor = r.flavor := by
   obtain ⟨pre, post, _, h1, _⟩ := (walk_hit_iff C r vro h).mp hw
-  exact lookupEntry_flavor hr h1
+  exact lookupEntry_flavor hr hloc h1
 
 /-! ## the flavor loop -/
 
@@ -1306,7 +1448,9 @@ theorem lookupVT_error {C : Ctx} {r : Req} {e v : Str} {post : List Str} {err : 
       · cases h
       · split at h
         · cases h
-        · split at h <;> cases h
+        · split at h
+          · cases h
+          · split at h <;> cases h
 
 theorem lookupEntry_error {C : Ctx} {r : Req} {e : Str} {post : List Str} {err : Err}
     (h : lookupEntry C r e post = .error err) : err ≠ .outOfFuel := by
@@ -1607,6 +1751,7 @@ theorem resolveFlavor_congr {C C' : Ctx} {r : Req} (keep : Bool)
 /-- the flavor loop gives the same answer through two contexts whose views agree on every flavor it visits -/
 theorem resolve_view_congr {C C' : Ctx} (r : Req) (keep : Bool) (vro : List Str) (flavors : List Str)
     (ho : C.ord = C'.ord) (hg : C.globalTags = C'.globalTags)
+    (hu : C.userTags = C'.userTags) (hd : C.dirs = C'.dirs)
     (hdb : ∀ f ∈ flavors, ViewsAgree f C.db C'.db) (hdl : ∀ f ∈ flavors, ViewsAgree f C.dbLatest C'.dbLatest) :
     resolve C r keep vro flavors = resolve C' r keep vro flavors := by
   induction flavors with
@@ -1615,7 +1760,7 @@ theorem resolve_view_congr {C C' : Ctx} (r : Req) (keep : Bool) (vro : List Str)
     unfold resolve
     have hfl : ∀ v, find C { r with flavor := fl } v = find C' { r with flavor := fl } v := by
       intro v
-      exact find_view_congr (r := { r with flavor := fl }) ho hg (hdb fl (by simp)) (hdl fl (by simp)) v
+      exact find_view_congr (r := { r with flavor := fl }) ho hg hu hd (hdb fl (by simp)) (hdl fl (by simp)) v
     rw [resolveFlavor_congr keep hfl,
       ih (fun f hf => hdb f (List.mem_cons_of_mem _ hf)) (fun f hf => hdl f (List.mem_cons_of_mem _ hf))]
 
